@@ -67,6 +67,7 @@ type propCfg struct {
 	World       string
 	RaceWorld   string // world run in a -race build next to the functional batch ("" = none)
 	ExtraWorld  string // a second functional world that exercises the same mechanism; two of the workers run it
+	Arch32      bool   // one more worker runs the same world built for GOARCH=386 (alignment of 64-bit atomics, int width)
 	Tags        string
 	Level       string
 	QuickWall   float64
@@ -86,11 +87,11 @@ var baseAssumptions = []string{
 const ruleCommon = "each run = one seeded simulation: (VERIF_SEED, run index) seeds a PRNG that answers every choice (workload, configuration, scheduling decision at every sync point and armed statement, pool hand-out, fault). A run is non-trivial when the scheduler moved the baton away from a task that could have continued at least once, or at least one fault fired; distinct = distinct case hashes (hash over every scheduling decision and every answer of the choice stream, i.e. workload, configuration and faults) among non-trivial runs."
 
 var props = map[string]propCfg{
-	"C10": {World: "diode", RaceWorld: "dioderace", Level: "exploration", QuickWall: 20, ThoroughSec: 600, Rule: ruleCommon},
-	"C11": {World: "diode", Level: "exploration", QuickWall: 20, ThoroughSec: 600, Rule: ruleCommon},
-	"C12": {World: "diode", Level: "exploration", QuickWall: 20, ThoroughSec: 600, Rule: ruleCommon},
+	"C10": {Arch32: true, World: "diode", RaceWorld: "dioderace", Level: "exploration", QuickWall: 20, ThoroughSec: 600, Rule: ruleCommon},
+	"C11": {Arch32: true, World: "diode", Level: "exploration", QuickWall: 20, ThoroughSec: 600, Rule: ruleCommon},
+	"C12": {Arch32: true, World: "diode", Level: "exploration", QuickWall: 20, ThoroughSec: 600, Rule: ruleCommon},
 	"C05": {World: "c05", ExtraWorld: "c18", Level: "exploration", QuickWall: 25, ThoroughSec: 600, Rule: ruleCommon},
-	"C13": {World: "c13", Level: "exploration", QuickWall: 15, ThoroughSec: 300, Rule: ruleCommon},
+	"C13": {Arch32: true, World: "c13", Level: "exploration", QuickWall: 15, ThoroughSec: 300, Rule: ruleCommon},
 	"C14": {World: "c14", Level: "exploration", QuickWall: 15, ThoroughSec: 300, Rule: ruleCommon + " Faults: per (destination, event) outcome in {ok, error, short write}, sampled (not enumerated) over 1-4 destinations x 1-6 events x 1-2 tasks."},
 	"C15": {World: "c15", Level: "exploration", QuickWall: 20, ThoroughSec: 600, Rule: ruleCommon},
 	"C17": {World: "c17", Tags: "binary_log", Level: "fault_enumeration", QuickWall: 25, ThoroughSec: 600, Rule: ruleCommon + " Per run: a binary log stream written by 1-3 logging tasks; every byte offset of the stream (all offsets up to 1200 bytes, else a drawn stride plus +-12 around every event boundary) is taken as crash point, then 10-40 stored-byte/reader fault combinations are applied."},
@@ -235,7 +236,16 @@ func prepare(id string, tags string, race bool) (scratch, worker string) {
 // buildWorker compiles the simulator worker in the scratch module; with race it
 // is built with -race (spin baton, see zsim/baton_race.go).
 func buildWorker(scratch, tags string, race bool) (worker string, out []byte, err error) {
+	return buildWorkerFor(scratch, tags, race, "")
+}
+
+// buildWorkerFor: goarch "" = the host's; "386" = the 32-bit batch (the kernel runs
+// 32-bit binaries; no cgo, no race detector there).
+func buildWorkerFor(scratch, tags string, race bool, goarch string) (worker string, out []byte, err error) {
 	worker = filepath.Join(scratch, "simworker")
+	if goarch != "" {
+		worker += "." + goarch
+	}
 	args := []string{"build"}
 	if tags != "" {
 		args = append(args, "-tags", tags)
@@ -249,6 +259,9 @@ func buildWorker(scratch, tags string, race bool) (worker string, out []byte, er
 	cmd := exec.Command("go", args...)
 	cmd.Dir = scratch
 	cmd.Env = env()
+	if goarch != "" {
+		cmd.Env = append(cmd.Env, "GOARCH="+goarch, "CGO_ENABLED=0")
+	}
 	out, err = cmd.CombinedOutput()
 	return worker, out, err
 }
@@ -325,6 +338,7 @@ type ViolationRec struct {
 	Stable     bool           `json:"stable"`
 	Trace      []TraceEv      `json:"trace"`
 	Probes     map[string]int `json:"probes,omitempty"`
+	Arch32     bool           `json:"arch32,omitempty"` // found by the GOARCH=386 worker (set by the runner)
 }
 
 type Sample struct {
@@ -376,9 +390,10 @@ type ReplayFile struct {
 	How      string    `json:"how_to_replay"`
 	// Rerun: the run killed the worker process (Go fatal error such as out of
 	// memory); it is replayed by running (seed, run) again instead of a choice list.
-	Rerun bool   `json:"rerun,omitempty"`
-	Race  bool   `json:"race_build,omitempty"`
-	Crash string `json:"crash_output,omitempty"`
+	Rerun  bool   `json:"rerun,omitempty"`
+	Race   bool   `json:"race_build,omitempty"`
+	Arch32 bool   `json:"arch32_build,omitempty"`
+	Crash  string `json:"crash_output,omitempty"`
 }
 
 type knownFinding struct {
@@ -436,6 +451,7 @@ type crashInfo struct {
 	run    int
 	stderr string
 	race   bool
+	arch32 bool
 }
 
 // crashedRun recognises a worker that was killed by the code under test (not
@@ -462,6 +478,7 @@ func crashedRun(r workerResult) (int, bool) {
 
 type workerResult struct {
 	race   bool
+	arch32 bool
 	out    *Output
 	err    error
 	stderr string
@@ -663,7 +680,14 @@ func check(id, tier string, workers int, wallOverride float64) int {
 			workers -= raceWorkers
 		}
 	}
-	results := make([]workerResult, workers+raceWorkers)
+	arch32Workers := 0
+	if cfg.Arch32 && os.Getenv("VERIF_NO_ARCH32") == "" {
+		arch32Workers = 1
+		if workers > 6 {
+			workers--
+		}
+	}
+	results := make([]workerResult, workers+raceWorkers+arch32Workers)
 	var wg sync.WaitGroup
 	searchStart := time.Now()
 	for i := 0; i < workers; i++ {
@@ -735,6 +759,38 @@ func check(id, tier string, workers int, wallOverride float64) int {
 			results[i] = r
 		}(j)
 	}
+	var arch32Worker string
+	if arch32Workers > 0 {
+		wg.Add(1)
+		go func() {
+			defer wg.Done()
+			i := workers + raceWorkers
+			w32, bout, berr := buildWorkerFor(scratch, cfg.Tags, false, "386")
+			arch32Worker = w32
+			if berr != nil {
+				results[i] = workerResult{arch32: true, err: fmt.Errorf("GOARCH=386 build failed: %v\n%s", berr, bout), code: 2}
+				return
+			}
+			left := wall - time.Since(searchStart).Seconds()
+			if left < 10 {
+				left = 10
+			}
+			from := i * 100_000_000
+			args := []string{"-world", cfg.World, "-prop", id, "-seed", strconv.FormatUint(seed, 10),
+				"-from", strconv.Itoa(from), "-to", strconv.Itoa(from + 99_000_000), "-wall", fmt.Sprintf("%.1f", left)}
+			so, se, code, err := runWorker(w32, args, time.Duration(left*float64(time.Second))+150*time.Second)
+			r := workerResult{arch32: true, stderr: se, code: code, err: err, from: from}
+			if err == nil && (code == 0 || code == 3) {
+				var o Output
+				if e := json.Unmarshal(so, &o); e != nil {
+					r.err = fmt.Errorf("unreadable worker output: %v", e)
+				} else {
+					r.out = &o
+				}
+			}
+			results[i] = r
+		}()
+	}
 	wg.Wait()
 
 	// aggregate
@@ -742,13 +798,14 @@ func check(id, tier string, workers int, wallOverride float64) int {
 	var viols []ViolationRec
 	var crashes []crashInfo
 	raceRuns, raceSteps := 0, int64(0)
+	arch32Runs, arch32Steps := 0, int64(0)
 	findingClause := map[string]bool{}
 	var realC, stubC []string
 	infra := false
 	for i, r := range results {
 		if r.err != nil || r.out == nil || (r.code != 0 && r.code != 3) {
 			if run, ok := crashedRun(r); ok {
-				crashes = append(crashes, crashInfo{run, r.stderr, r.race})
+				crashes = append(crashes, crashInfo{run, r.stderr, r.race, r.arch32})
 				fmt.Fprintf(os.Stderr, "vcheck: worker %d died during run %d; will try to reproduce\n", i, run)
 				continue
 			}
@@ -765,6 +822,15 @@ func check(id, tier string, workers int, wallOverride float64) int {
 			raceRuns += o.Stats.Runs
 			raceSteps += o.Stats.Steps
 			viols = append(viols, o.Violations...)
+			continue
+		}
+		if r.arch32 {
+			arch32Runs += o.Stats.Runs
+			arch32Steps += o.Stats.Steps
+			for _, v := range o.Violations {
+				v.Arch32 = true
+				viols = append(viols, v)
+			}
 			continue
 		}
 		realC, stubC = unionStr(realC, o.Real), unionStr(stubC, o.Stub)
@@ -824,8 +890,14 @@ func check(id, tier string, workers int, wallOverride float64) int {
 			fmt.Fprintf(os.Stderr, "vcheck: not reproducible in-process (machinery defect, not reported as a violation): run=%d clause=%s %s\n", v.Run, v.Clause, v.Msg)
 			continue
 		}
-		rf := ReplayFile{Property: id, World: v.World, Seed: v.Seed, Run: v.Run, Clause: v.Clause, Msg: v.Msg, Summary: v.Summary, Choices: v.Choices, Trace: v.Trace, RepoRev: repoRev(),
+		rf := ReplayFile{Property: id, World: v.World, Seed: v.Seed, Run: v.Run, Clause: v.Clause, Msg: v.Msg, Summary: v.Summary, Choices: v.Choices, Trace: v.Trace, RepoRev: repoRev(), Arch32: v.Arch32,
 			How: "cd /verif && bin/vcheck replay <this file>   (rebuilds from /repo's working tree; exit 1 = the violation reproduces)"}
+		cw := worker
+		if v.Arch32 {
+			cw = arch32Worker
+			rf.Msg = "[GOARCH=386 build] " + rf.Msg
+			v.Msg = rf.Msg
+		}
 		os.MkdirAll(filepath.Join(verifDir, "replays"), 0o755)
 		path := filepath.Join(verifDir, "replays", fmt.Sprintf("%s-%d-%d.json", id, v.Seed, v.Run))
 		b, _ := json.MarshalIndent(rf, "", " ")
@@ -836,7 +908,7 @@ func check(id, tier string, workers int, wallOverride float64) int {
 		ok := true
 		var h0 string
 		for k := 0; k < 2; k++ {
-			so, se, code, err := runWorker(worker, []string{"-world", v.World, "-prop", id, "-replay", path}, 120*time.Second)
+			so, se, code, err := runWorker(cw, []string{"-world", v.World, "-prop", id, "-replay", path}, 120*time.Second)
 			var rep struct {
 				Clause string `json:"clause"`
 				Hash   string `json:"hash"`
@@ -875,6 +947,9 @@ func check(id, tier string, workers int, wallOverride float64) int {
 		if c.race {
 			w, wname, xenv = raceWorker, cfg.RaceWorld, raceEnv
 		}
+		if c.arch32 {
+			w = arch32Worker
+		}
 		for k := 0; k < 2; k++ {
 			_, se, code, err := runWorker(w, []string{"-world", wname, "-prop", id, "-seed", strconv.FormatUint(seed, 10), "-from", strconv.Itoa(c.run), "-to", strconv.Itoa(c.run + 1), "-wall", "600"}, 400*time.Second, xenv...)
 			if err == nil && code != 0 && code != 3 && !strings.Contains(se, "watchdog") {
@@ -895,7 +970,7 @@ func check(id, tier string, workers int, wallOverride float64) int {
 		if strings.Contains(tailOut, "DATA RACE") {
 			clause, msg = "data_race", "the Go race detector reports a data race on this simulated schedule (race-mode build: only the happens-before edges created by the code under test are visible to it)"
 		}
-		rf := ReplayFile{Property: id, World: wname, Seed: seed, Run: c.run, Clause: clause, Msg: msg, Rerun: true, Race: c.race, Crash: strings.Join(lines, "\n"), RepoRev: repoRev(),
+		rf := ReplayFile{Property: id, World: wname, Seed: seed, Run: c.run, Clause: clause, Msg: msg, Rerun: true, Race: c.race, Arch32: c.arch32, Crash: strings.Join(lines, "\n"), RepoRev: repoRev(),
 			How: "cd /verif && bin/vcheck replay <this file>   (rebuilds from /repo's working tree and runs (seed, run) again; exit 1 = the process dies again)"}
 		os.MkdirAll(filepath.Join(verifDir, "replays"), 0o755)
 		path := filepath.Join(verifDir, "replays", fmt.Sprintf("%s-%d-%d.json", id, seed, c.run))
@@ -922,11 +997,16 @@ func check(id, tier string, workers int, wallOverride float64) int {
 			unreached = append(unreached, p)
 		}
 	}
+	arch32Evidence = map[string]interface{}{"workers": arch32Workers, "runs": arch32Runs, "steps": arch32Steps, "world": cfg.World,
+		"note": "the same world and oracles in a worker built with GOARCH=386 (32-bit int and pointer width, 64-bit atomics need 8-byte alignment); its runs are not counted in the totals above"}
 	if agg.Runs > 0 && os.Getenv("VERIF_NO_EVIDENCE") == "" {
 		writeEvidence(id, tier, seed, cfg, agg, len(distinct), nviol, wallS, buildS, workers, realC, stubC, unreached, len(knownLines), raceRuns, raceSteps, raceWorkers)
 	}
 	fmt.Printf("vcheck: %s %s: %d runs (%d non-trivial, %d distinct), %d steps, %.1fs simulated, %d truncated, violations=%d known=%d, %.1fs wall\n",
 		id, tier, agg.Runs, agg.Nontrivial, len(distinct), agg.Steps, float64(agg.SimTimeNs)/1e9, agg.Truncated, nviol, len(knownLines), wallS)
+	if arch32Workers > 0 {
+		fmt.Printf("vcheck: %s 32-bit batch (%s, GOARCH=386 build): %d runs, %d steps on 1 worker\n", id, cfg.World, arch32Runs, arch32Steps)
+	}
 	if raceWorkers > 0 {
 		fmt.Printf("vcheck: %s race mode (%s, -race build): %d runs, %d steps on %d workers\n", id, cfg.RaceWorld, raceRuns, raceSteps, raceWorkers)
 	}
@@ -975,6 +1055,9 @@ func unionStr(a, b []string) []string {
 	return a
 }
 
+// arch32Evidence describes the GOARCH=386 batch of the current check (set before writeEvidence).
+var arch32Evidence = map[string]interface{}{"workers": 0}
+
 func writeEvidence(id, tier string, seed uint64, cfg propCfg, st Stats, distinct, nviol int, wallS, buildS float64, workers int, realC, stubC, unreached []string, nknown int, raceRuns int, raceSteps int64, raceWorkers int) {
 	samples := []interface{}{}
 	for _, s := range st.Samples {
@@ -1014,6 +1097,7 @@ func writeEvidence(id, tier string, seed uint64, cfg propCfg, st Stats, distinct
 			"components":          map[string]interface{}{"real": realC, "stub": stubC},
 			"known_findings_seen": nknown,
 			"race_mode":           map[string]interface{}{"world": cfg.RaceWorld, "workers": raceWorkers, "runs": raceRuns, "steps": raceSteps, "note": "runs of the -race build (spin baton); oracle: Go race detector, halt on first report"},
+			"arch32_mode":         arch32Evidence,
 			"build_s":             buildS,
 			"repo_rev":            repoRev(),
 		},
@@ -1043,6 +1127,13 @@ func doReplay(file string) int {
 	}
 	abs, _ := filepath.Abs(file)
 	_, worker := prepare(rf.Property, cfg.Tags, false)
+	if rf.Arch32 {
+		w32, out, err := buildWorkerFor(filepath.Dir(worker), cfg.Tags, false, "386")
+		if err != nil {
+			fatal2("GOARCH=386 build failed: %v\n%s", err, out)
+		}
+		worker = w32
+	}
 	if rf.Rerun {
 		var xenv []string
 		if rf.Race {
